@@ -321,3 +321,12 @@ def axis_at_infinity(case):
 
 
 PREDICATES = {"axis_at_infinity": axis_at_infinity}
+
+
+# ------------------------------------------------------------------------------------------- equivalent ways of asking
+from .. import forms as _forms  # noqa: E402
+
+LAWS.append(
+    Law("call_forms", lambda tier: _forms.call_forms_strategy("C11")(tier), _forms.run_call_forms("C11"), lambda c: True, lambda c: [c["entry"], f"d{c['d']}"], {"quick": 500, "thorough": 6000},
+        "the same question asked in several ways (positional / keyword arguments, method / function / operator form, symmetric argument orders) on the objects of the shared pool: same answer", shard=250)
+)
